@@ -109,6 +109,30 @@ def validate(ctx, trace_path, mode, label):
     return n
 
 
+def deep_books(ctx):
+    """Books of more than a thousand levels per side (harness `c05 deep`), validated by Trace_OrderBook_deep: however
+    deep the book, it is exactly the price -> amount map (nothing about the number of levels may matter)."""
+    out = ctx.path("trace_deep.ndjson")
+    ctx.harness("c05", "deep", "--seed", ctx.seed, "--trace", out)
+    lines = ctx.read_trace(out)
+    clean = ctx.path("clean_deep.ndjson")
+    found, keep = ctx.screen_anomalies(lines, clean, anomaly)
+    rp = {"mode": "deep", "seed": ctx.seed}
+    for n, d, seg in found:
+        ctx.violation("deep:anomaly:" + d.split(":")[0], "%s [deep book, line %d]" % (d, n), rp)
+    n, bad, _ = ctx.tlc_trace("Trace_" + MODULE + "_deep", "Trace_" + MODULE + "_deep.cfg", clean)
+    for b in bad:
+        line = keep[b - 1]
+        pre = keep[b - 2]["post"] if b >= 2 else None
+        ctx.violation("deep:%s" % line.get("a"),
+                      "a book of %s bid / %s ask levels, event %s -> observed %d bid / %d ask levels (seq %s): not the view of the price -> amount "
+                      "map OrderBook yields [deep book, line %d]" % (
+                          len(pre["bids"]) if pre else "?", len(pre["asks"]) if pre else "?",
+                          json.dumps({k: line.get(k) for k in ("a", "bl", "al", "s")}),
+                          len(line["post"].get("bids", [])), len(line["post"].get("asks", [])), line["post"].get("seq"), b), rp)
+    ctx.cov["deep_books"] = {"lines": n, "levels_per_side": max((len(l["post"].get("bids", [])) for l in keep if isinstance(l.get("post"), dict)), default=0)}
+
+
 def check_results(ctx, results_path, scns, mode, label):
     for r in ctx.read_results(results_path):
         if r.get("ok"):
@@ -168,11 +192,16 @@ def check(ctx):
         out = ctx.path("trace_random_%s.ndjson" % mode)
         ctx.harness("c05", "random", "--seed", ctx.seed, "--steps", steps, "--trace", out, "--mode", mode)
         validate(ctx, out, mode, "random/" + mode)
+    deep_books(ctx)
     return ctx.finish()
 
 
 def replay(ctx, rp):
     ctx.build("c05")
+    if rp.get("mode") == "deep":
+        ctx.seed = rp.get("seed", ctx.seed)
+        deep_books(ctx)
+        return ctx.finish(write_evidence=False)
     scn = ctx.path("replay_scn.ndjson")
     with open(scn, "w") as f:
         f.write(json.dumps(rp["scenario"]) + "\n")
